@@ -64,6 +64,10 @@ def run(ctx):
             # the same script with sessions that are upgraded to a WebSocket (in flight until the WebSocket handler ends): the first one / all
             for w in ([[0]] if nc == 1 else [[0], list(range(nc))]) if nc else []:
                 d3 = json.loads(json.dumps(d)); d3["crash"] = []; d3["ws"] = w; scns.append(d3)
+            # all sessions WebSocket sessions, in flight after the interrupt for longer than the server's Keep-Alive deadline (which is not theirs)
+            if nc:
+                d4 = json.loads(json.dumps(d)); d4["crash"] = []; d4["ws"] = list(range(nc))
+                d4["timers"] = {"keepalive": 1, "websocket": 60, "grace_ms": 1700}; scns.append(d4)
     for d in scns:
         d.setdefault("crash", []); d.setdefault("ws", [])
     for n, d in enumerate(scns):
